@@ -28,6 +28,7 @@ func paHex() string {
 
 // chain: a real proposer chain whose headers/data are the genuine blobs
 type chain struct {
+	cp   bool // headers are signed over the custom signature payload
 	hdr  map[uint64][]byte
 	dat  map[uint64][]byte
 	pdat map[uint64][]byte // the plain (unsigned) Data of every height, as the data sync service gossips it
@@ -38,13 +39,16 @@ type chain struct {
 	pub  crypto.PubKey
 }
 
-func buildChain(r *hx.Rng, ih uint64, n int) *chain {
-	env, err := bm.New(bm.Options{InitialHeight: ih, GenesisTime: time.Unix(0, baseTime), Aggregator: true})
+func buildChain(r *hx.Rng, ih uint64, n int) *chain { return buildChainCP(r, ih, n, false) }
+
+// buildChainCP: the chain of an aggregator that signs over the custom signature payload when cp is set
+func buildChainCP(r *hx.Rng, ih uint64, n int, cp bool) *chain {
+	env, err := bm.New(bm.Options{InitialHeight: ih, GenesisTime: time.Unix(0, baseTime), Aggregator: true, CustomPayload: cp})
 	if err != nil {
 		panic(err)
 	}
 	defer env.Cleanup()
-	c := &chain{hdr: map[uint64][]byte{}, dat: map[uint64][]byte{}, pdat: map[uint64][]byte{}, shs: map[uint64]*types.SignedHeader{}, ih: ih}
+	c := &chain{cp: cp, hdr: map[uint64][]byte{}, dat: map[uint64][]byte{}, pdat: map[uint64][]byte{}, shs: map[uint64]*types.SignedHeader{}, ih: ih}
 	c.priv, c.pub = bm.DetKey(1)
 	ts := baseTime
 	for i := 0; i < n; i++ {
@@ -94,9 +98,22 @@ func (c *chain) forgeries(r *hx.Rng) map[string][]byte {
 		return out
 	}
 	sign := func(h *types.Header, k crypto.PrivKey) []byte {
-		pl, _ := h.MarshalBinary()
+		pl, _ := HeaderPayload(h, c.cp) // the strongest forgery signs what the node verifies
 		s, _ := k.Sign(pl)
 		return s
+	}
+	// 0 the proposer's own key over the OTHER payload (default on a custom-payload chain and vice versa): not valid here
+	{
+		o := *any
+		pl, _ := HeaderPayload(&o.Header, !c.cp)
+		o.Signature, _ = c.priv.Sign(pl)
+		out["hdr-proposer-key-other-payload"], _ = o.MarshalBinary()
+		a := *any
+		a.Header.AppHash = []byte("forged-other-payload")
+		a.Signer = types.Signer{PubKey: advPub, Address: gaddr}
+		pla, _ := HeaderPayload(&a.Header, !c.cp)
+		a.Signature, _ = advPriv.Sign(pla)
+		out["hdr-foreign-key-other-payload"], _ = a.MarshalBinary()
 	}
 	// 1 self-consistent forgery: proposer's address, foreign key, signed with the foreign key
 	f := *any
@@ -441,8 +458,16 @@ func junk(r *hx.Rng, src []byte) []byte {
 	return b
 }
 
-func blobArgs(b []byte) string {
-	k, h, d, ka := Oracles(b)
+// curCP: the signature payload provider of the node the ops being generated are for (set with every reset line)
+var curCP bool
+
+func blobArgs(b []byte) string { return blobArgsCP(b, curCP) }
+
+// blobArgsLib: the P2P library entry (go-header's Validate) always verifies the DEFAULT payload
+func blobArgsLib(b []byte) string { return blobArgsCP(b, false) }
+
+func blobArgsCP(b []byte, cp bool) string {
+	k, h, d, ka := Oracles(b, cp)
 	s := fmt.Sprintf("blob=%s keyok=%d hsig=%d dsig=%d", hx.Hex(b), b01(k), b01(h), b01(d))
 	if len(ka) > 0 {
 		s += " kaddr=" + hx.Hex(ka)
@@ -509,10 +534,10 @@ func genStream(r *hx.Rng, tier string, w io.Writer, adversarial bool) {
 			tk := 0
 			if trusted != nil {
 				t = hx.Hex(trusted)
-				k, _, _, _ := Oracles(trusted)
+				k, _, _, _ := Oracles(trusted, false)
 				tk = b01(k)
 			}
-			fmt.Fprintf(w, "p2plib trusted=%s tkeyok=%d %s\n", t, tk, blobArgs(b))
+			fmt.Fprintf(w, "p2plib trusted=%s tkeyok=%d %s\n", t, tk, blobArgsLib(b))
 		}
 		for h := c.ih; h <= c.top; h++ {
 			vs := c.p2pVariants(r, h)
@@ -546,19 +571,19 @@ func genStream(r *hx.Rng, tier string, w io.Writer, adversarial bool) {
 			lib(c.hdr[c.top-1], ah[name])
 		}
 		// a trusted header that does not decode, an empty message
-		fmt.Fprintf(w, "p2plib trusted=ffff tkeyok=0 %s\n", blobArgs(c.hdr[c.top]))
+		fmt.Fprintf(w, "p2plib trusted=ffff tkeyok=0 %s\n", blobArgsLib(c.hdr[c.top]))
 		lib(c.hdr[c.top-1], nil)
 		// the FIRST header of the P2P store (no trusted hash): whatever a peer answers for the initial height
 		for h := c.ih; h <= c.ih+1; h++ {
 			vs := c.p2pVariants(r, h)
 			for _, name := range hx.SortedKeys(vs) {
-				fmt.Fprintf(w, "p2pboot %s\n", blobArgs(vs[name]))
+				fmt.Fprintf(w, "p2pboot %s\n", blobArgsLib(vs[name]))
 			}
 		}
 		for _, name := range hx.SortedKeys(fg) {
-			fmt.Fprintf(w, "p2pboot %s\n", blobArgs(fg[name]))
+			fmt.Fprintf(w, "p2pboot %s\n", blobArgsLib(fg[name]))
 		}
-		fmt.Fprintf(w, "p2pboot %s\n", blobArgs(nil))
+		fmt.Fprintf(w, "p2pboot %s\n", blobArgsLib(nil))
 		// ... and of the P2P data store
 		dvb := c.p2pDataVariants(r)
 		for _, name := range hx.SortedKeys(dvb) {
@@ -646,15 +671,51 @@ func genStream(r *hx.Rng, tier string, w io.Writer, adversarial bool) {
 		}
 		fmt.Fprintf(w, "blob da=%d %s\n", 1+r.Intn(9), blobArgs(b))
 	}
+	// --- a chain with a custom signature payload provider through the direct handlers and the P2P header store path:
+	// genuine headers (signed over the custom payload) are accepted, the same headers signed over the DEFAULT payload and
+	// every other forgery are rejected
+	{
+		cc := buildChainCP(r, 1, 4, true)
+		curCP = true
+		fmt.Fprintf(w, "reset ih=1 gt=%d pa=%s start=0 cp=1\n", baseTime, paHex())
+		fgc := cc.forgeries(r)
+		for h := cc.ih; h <= cc.top; h++ {
+			fmt.Fprintf(w, "blob da=2 %s\n", blobArgs(cc.hdr[h]))
+			if b, ok := cc.dat[h]; ok {
+				fmt.Fprintf(w, "blob da=2 %s\n", blobArgs(b))
+			}
+		}
+		for _, name := range hx.SortedKeys(fgc) {
+			fmt.Fprintf(w, "blob da=3 %s\n", blobArgs(fgc[name]))
+		}
+		for h := cc.ih; h <= cc.top; h++ {
+			fmt.Fprintf(w, "p2phdr %s\n", blobArgs(cc.hdr[h]))
+		}
+		for _, name := range hx.SortedKeys(fgc) {
+			fmt.Fprintf(w, "p2phdr %s\n", blobArgs(fgc[name]))
+		}
+		if adversarial {
+			// the P2P LIBRARY entry verifies the default payload (documented caveat since /repo 35dfc53): it rejects the
+			// genuine headers of this chain, and accepts the proposer-signed default-payload copy
+			for h := cc.ih + 1; h <= cc.top; h++ {
+				fmt.Fprintf(w, "p2plib trusted=%s tkeyok=1 %s\n", hx.Hex(cc.hdr[h-1]), blobArgsLib(cc.hdr[h]))
+			}
+			fmt.Fprintf(w, "p2plib trusted=- tkeyok=0 %s\n", blobArgsLib(fgc["hdr-proposer-key-other-payload"]))
+		}
+		curCP = false
+	}
 	// --- the real RetrieveLoop over scripted DA contents and fetch outcomes
 	for s := 0; s < nScen; s++ {
 		ih := uint64(1)
 		if r.Chance(20) {
 			ih = 3
 		}
-		c := buildChain(r, ih, 3+r.Intn(6))
+		// every fourth scenario: a chain (and a node) with a non-default signature payload provider
+		cp := s%4 == 2
+		c := buildChainCP(r, ih, 3+r.Intn(6), cp)
 		start := uint64(r.Intn(3))
-		fmt.Fprintf(w, "reset ih=%d gt=%d pa=%s start=%d\n", ih, baseTime, paHex(), start)
+		curCP = cp
+		fmt.Fprintf(w, "reset ih=%d gt=%d pa=%s start=%d cp=%d\n", ih, baseTime, paHex(), start, b01(cp))
 		fg := c.forgeries(r)
 		names := hx.SortedKeys(fg)
 		maxDA := uint64(2 + r.Intn(8))
@@ -790,12 +851,17 @@ func genStream(r *hx.Rng, tier string, w io.Writer, adversarial bool) {
 
 func GenC09(r *hx.Rng, tier string, w io.Writer) {
 	genStream(r, tier, w, false)
+	curCP = false
 	// back-pressure: more genuine blobs at one height than the hand-off channel can hold
 	c := buildChain(r, 1, 2)
 	fmt.Fprintf(w, "reset ih=1 gt=%d pa=%s start=0\n", baseTime, paHex())
 	fmt.Fprintf(w, "flood da=0 n=10060 %s\n", blobArgs(c.hdr[c.ih]))
 }
-func GenC03(r *hx.Rng, tier string, w io.Writer) { genStream(r, tier, w, true) }
+func GenC03(r *hx.Rng, tier string, w io.Writer) {
+	curCP = false
+	genStream(r, tier, w, true)
+	curCP = false
+}
 
 func init() {
 	hx.Register("C09", hx.Stream{Gen: GenC09, Run: Run})
